@@ -125,7 +125,7 @@ fn main() {
     };
     drop(wr);
     let outbuf = std::sync::Arc::new(std::sync::Mutex::new(Vec::<u8>::new()));
-    {
+    let reader = {
         let ob = outbuf.clone();
         let mut rd = unsafe { std::fs::File::from_raw_fd(libc::dup(rd.as_raw_fd())) };
         std::thread::spawn(move || {
@@ -136,8 +136,8 @@ fn main() {
                 }
                 ob.lock().unwrap().extend_from_slice(&b[..n]);
             }
-        });
-    }
+        })
+    };
     drop(rd);
     match waitpid(pid, None).unwrap() {
         WaitStatus::Stopped(_, Signal::SIGTRAP) => {}
@@ -239,7 +239,8 @@ fn main() {
             _ => {}
         }
     }
-    std::thread::sleep(std::time::Duration::from_millis(50));
+    // the pipe reaches EOF when the program (the only other holder of the write end) is gone
+    let _ = reader.join();
     let so = String::from_utf8_lossy(&outbuf.lock().unwrap()).to_string();
     out.emit(&json!({"ev": "end", "steps": n, "exit": exit_code, "stdout": so}));
 }
